@@ -96,6 +96,20 @@ def check():
         mirlib.check_translator(o, ex, nm)
         # group the casts applied to one definition node: the handler is total over definition kinds if, taken together,
         # the casts it tries before giving up (return) cover them - a path that unwraps a failed cast is a panic
+        # the dispatcher hands a handler's Err to `?` and the server's main loop ends: an error a handler makes up itself
+        # (not one a callee returned, e.g. a file that cannot be read) takes the server down just like a panic
+        own_err = 0
+        for p in outs:
+            if p.kind == "return" and p.ret[0] == "variant" and p.ret[2] == "Err" and "Result<" in f.ret and "anyhow" in f.ret:
+                pay = p.ret[3][0]
+                from_callee = any(t[0] == "down" and t[2] == "Err" for t in ms.subterms(pay))
+                if not from_callee:
+                    own_err += 1
+        if "Result<" in f.ret and "anyhow" in f.ret:
+            o.query("%s: answers Err only with an error one of its callees returned (never one it makes up: the dispatcher would end the server)" % nm, "mirsym/structural",
+                    "unsat" if own_err == 0 else "violated", 0)
+            if own_err:
+                bad.append("%s returns an error of its own making; the request dispatcher propagates it and the server exits" % nm)
         for p in outs:
             if p.kind != "diverge" or not p.info.get("panic"):
                 continue
